@@ -52,6 +52,22 @@ class StmtMixin:
     def as_stmt(self, outs):
         return [Out('ok', o.st) if o.kind == 'ok' else o for o in outs]
 
+    def ex_FunctionDef(self, st, s):
+        """nested function definition: a closure over a snapshot of the enclosing locals"""
+        fr = st.frame
+        fi = fr.fi.inner.get(s.name) if fr is not None and fr.fi is not None else None
+        if fi is None:
+            raise Unsupported('nested def not found in the source index', s)
+        env = dict(getattr(fr, 'env', None) or {})
+        env.update(st.loc)
+        st = st.copy()
+        fv = FuncV(fi, env, fr.cls_ctx)
+        env[s.name] = fv
+        st.loc[s.name] = fv
+        return [Out('ok', st)]
+
+    ex_AsyncFunctionDef = ex_FunctionDef
+
     def ex_Pass(self, st, s):
         return [Out('ok', st)]
 
@@ -453,9 +469,13 @@ class StmtMixin:
                 t.frame = fr
                 for o in self.ex_block(t, h.body):
                     o.st.frame = saved_frame if o.st.frame is fr else o.st.frame
+                    if _os.environ.get('PYVC_TRACE_UNCAUGHT') and o.kind == 'raise':
+                        print('HANDLER at line', h.lineno, 'raised', o.val)
                     outs.append(o)
             cur = f
         if cur is not None:
+            if _os.environ.get('PYVC_TRACE_UNCAUGHT'):
+                print('UNCAUGHT by handlers at line', handlers[0].lineno, 'exc', exc, 'classes', [ast.unparse(h.type) if h.type else '*' for h in handlers])
             outs.append(Out('raise', cur, exc))
         return outs
 
@@ -486,8 +506,8 @@ class StmtMixin:
         return outs
 
     # ------------------------------------------------------------------ loops
-    def loop_ordinal(self, node):
-        fi = self.cur_unit
+    def loop_ordinal(self, node, fi=None):
+        fi = fi or self.loop_owner or self.cur_unit
         loops = getattr(fi, '_loops', None)
         if loops is None:
             loops = [n for n in ast.walk(fi.node) if isinstance(n, (ast.For, ast.While, ast.ListComp, ast.DictComp, ast.GeneratorExp, ast.SetComp))]
@@ -503,13 +523,16 @@ class StmtMixin:
                     names.add(n.id)
         return names
 
+    loop_owner = None
+
     def ex_For(self, st, s):
         if s.orelse:
             raise Unsupported('for-else', s)
+        self.loop_owner = st.frame.fi if st.frame is not None and st.frame.fi is not None else self.cur_unit
         return self.bind(self.ev(st, s.iter), lambda st2, it: self.for_over(st2, it, s))
 
     def for_over(self, st: St, it: V, s: ast.For):
-        fi = self.cur_unit
+        fi = self.loop_owner or self.cur_unit
         inv = self.find_loop_spec(fi, s)
         # concrete iteration: tuples of known length
         if isinstance(it, TupleV):
@@ -587,7 +610,8 @@ class StmtMixin:
     def ex_While(self, st, s):
         if s.orelse:
             raise Unsupported('while-else', s)
-        fi = self.cur_unit
+        fi = st.frame.fi if st.frame is not None and st.frame.fi is not None else self.cur_unit
+        self.loop_owner = fi
         inv = self.find_loop_spec(fi, s)
         if inv is None:
             raise Unsupported(f'while loop #{self.loop_ordinal(s)} in {fi.qualname} needs a loop invariant', s)
